@@ -245,7 +245,11 @@ func oracleText(c *Case, errs []string, note string, idx int, res *lib.Result) {
 		res.Violate(lib.Violation{Clause: clause, Case: idx, Key: clause + ":" + fam, Detail: detail, Replay: c})
 	}
 	if note != "" {
-		viol("one-item-per-line", "load-paths-disagree", note)
+		fam := "load-paths-disagree"
+		if levelDiffers {
+			fam, levelDiffers = "result-depends-on-log-level", false
+		}
+		viol("one-item-per-line", fam, note)
 	}
 	if c.TooLong {
 		if longest >= 65536 {
